@@ -40,8 +40,8 @@ CLAIMED = {
     "C21": ("model_checking", "CrossHair symbolic execution of _get_parsable_field_order over all dependency graphs (symbolic Boolean matrix behind a stub of re)",
             "CrossHair explores every path of the real ordering function for every directed dependency graph on 3 definitions and each of the 6 key orders (quick), and on 4 definitions sharded by the first matrix row for three key orders (thorough): an EvaluationError iff the graph is cyclic, otherwise a dependency-respecting permutation. Only 'Confirmed over all paths' counts.",
             "re.findall stubbed by its contract (validated by replays that build real expression strings and run them through Spec._spec_eval_expressions); the scoping clause (component > arch variables > spec variables) is a two-configuration concrete probe; more than 4 definitions and word-prefix names are outside.", "4/C21"),
-    "C11": ("model_checking", "bounded translation of the kernel's Python source (inspect.getsource at run time) into one SMT formula by a guarded-merge interpreter; z3 over reals and IEEE float32",
-            "Bounded SMT (CBMC style): the current source of _sfs_bnl_core is executed over symbolic matrices (reals: up to 4x3/3x4 quick, 5x3/4x4/6x2 thorough, one and two groups; float32 incl. +-inf: 2x2 quick, 3x2 thorough) with unwinding assertions; z3 shows mask[i] <=> row i is not strictly dominated within its group for every matrix of the shape.",
+    "C11": ("model_checking", "bounded translation of the kernel's Python source (inspect.getsource at run time) into one SMT formula by a guarded-merge interpreter; z3 over reals and IEEE float32 (cvc5 binary as second back end for the 3x2 float32 shape)",
+            "Bounded SMT (CBMC style): the current source of _sfs_bnl_core is executed over symbolic matrices (reals: up to 4x3/3x4 quick, 5x3/4x4/6x2 thorough, one and two groups; float32 incl. +-inf: 2x2 by z3 and 3x2 by the cvc5 binary on the exported SMT-LIB2 of the same encoding, z3 answering unknown there) with unwinding assertions; z3 shows mask[i] <=> row i is not strictly dominated within its group for every matrix of the shape.",
             "The numba-compiled code (fastmath) is reached only through replays; argsort is modelled as the stable sorting permutation; the numpy/pandas glue (group encoding, goal signs, prime-factor expansion, dedup) is assumed by contract and only exercised by replays and the float64 cast probe (a known finding).", "4/C11"),
     "C09": ("model_checking", "verdicts of the real comparator vs z3 integer-point search over the whole box (bounded SMT)",
             "Bounded SMT: the real geq_leq_zero/diff_geq_leq_zero are called on ~550 (quick) / ~4500 (thorough) formulas (grammar with ceilings/Min/Max plus the real model's formulas for symbolic tile shapes); for every non-UNKNOWN verdict z3 searches the integer box [1,hi]^k (hi<=12/24) for a point with the forbidden sign; unsat = verdict sound on the whole box.",
